@@ -364,6 +364,15 @@ bool rnode_eq(rnode const &l, rnode const &r)
   return true;
 }
 
+struct mi_second
+{
+  int second;
+  virtual ~mi_second() = default;
+};
+struct mi_derived : base_t, mi_second
+{
+};
+
 void wrappers(i64 a, i64 b)
 {
   count(a == b);
@@ -465,6 +474,21 @@ void wrappers(i64 a, i64 b)
     int *const uaddr = u.get_pointer();
     fcppt::shared_ptr<int> const s4{std::move(u)};
     C17_CHECK(s4.get_pointer() == uaddr && *s4 == a && s4.use_count() == 1 && s1.use_count() == 2, "shared_ptr|from-unique_ptr|same-object", "shared_ptr from unique_ptr");
+  }
+  // shared_ptrs of DIFFERENT static types to one object under multiple inheritance: the conversion
+  // to the second base shifts the address; == / != compare the pointers after the usual pointer
+  // conversion, i.e. they say "same object" (like std::shared_ptr and like raw pointers)
+  {
+    fcppt::shared_ptr<mi_derived> const d = fcppt::make_shared_ptr<mi_derived>();
+    d->v = x;
+    d->second = y;
+    fcppt::shared_ptr<mi_second> const b2{d};
+    fcppt::shared_ptr<base_t> const b1{d};
+    fcppt::shared_ptr<mi_derived> const other = fcppt::make_shared_ptr<mi_derived>();
+    C17_CHECK(b2.get_pointer() == static_cast<mi_second *>(d.get_pointer()) && b2->second == b && b1->v == a, "shared_ptr|converting-copy|same-object", "shared_ptr converted to a base");
+    C17_CHECK((b2 == d) && (d == b2) && !(b2 != d) && !(d != b2), "shared_ptr|operator==|second-base-of-the-same-object", "shared_ptr<second base> and shared_ptr<derived> to the same object compare unequal");
+    C17_CHECK((b1 == d) && !(b1 != d), "shared_ptr|operator==|first-base-of-the-same-object", "shared_ptr<first base> vs shared_ptr<derived>");
+    C17_CHECK(!(b2 == other) && (b2 != other), "shared_ptr|operator==|second-base-of-another-object", "shared_ptr<second base> equals a shared_ptr to another object");
   }
   // unit: a single value
   C17_CHECK((fcppt::unit{} == fcppt::unit{}) && !(fcppt::unit{} != fcppt::unit{}), "unit|operator==|single-value", "unit ==");
